@@ -151,9 +151,34 @@ def nativeW : World :=
     (vamm (10000 * D) (1000 * D) 0 1800 (Integer.newPositive (5 * D)))
 
 set_option maxRecDepth 100000 in
-theorem c11_needs_noFunds :
+/-- the former counterexample to `sat_C11` without `NoFundsAttached` (7 coins attached to a PayFunding whose
+    payment is zero: the host moves them to the vault, transfer list `[(100, ENGINE, 7)]`; the former clause
+    reported `funding-moved-collateral-with-zero-payment`).  `Spec.C11.check` now expects the attachment
+    transfer at the head of the list, and the check is empty -/
+theorem c11_funds_attached_ok :
     Spec.C11.check (modelStep nativeW ⟨2, 7200⟩ 100 ⟨7, false⟩ (.engine (.payFunding 10)))
-      = ["funding-moved-collateral-with-zero-payment"] := by decide +kernel
+      = []
+    ∧ (modelStep nativeW ⟨2, 7200⟩ 100 ⟨7, false⟩ (.engine (.payFunding 10))).ok = true
+    ∧ (modelStep nativeW ⟨2, 7200⟩ 100 ⟨7, false⟩ (.engine (.payFunding 10))).xfers
+      = [(100, ENGINE, 7)] := by decide +kernel
+
+/-- `nativeW` with the index price at 9 (mark 10: the longs pay 5·(1/24) = 0.208330) and a vault of 10 raw units -/
+def nativeCap : World :=
+  { nativeW with
+    feed := .mock { owner := 63, price := some (9 * D) },
+    ledger := { bal := [(100, 10000 * D), (ENGINE, 10), (IFUND, 5000 * D)], allow := [] } }
+
+set_option maxRecDepth 100000 in
+/-- the cap on the vault→fund payment counts the attached coins: user 100 attaches 7, the vault holds 17
+    when the reply runs and all of it goes to the fund.  When the vault itself is the sender the 7 coins
+    are a self-transfer, the vault still holds 10 and pays 10.  No clause of C11 fails in either case -/
+theorem c11_funds_attached_cap :
+    Spec.C11.check (modelStep nativeCap ⟨2, 7200⟩ 100 ⟨7, false⟩ (.engine (.payFunding 10))) = []
+    ∧ (modelStep nativeCap ⟨2, 7200⟩ 100 ⟨7, false⟩ (.engine (.payFunding 10))).xfers
+      = [(100, ENGINE, 7), (ENGINE, IFUND, 17)]
+    ∧ Spec.C11.check (modelStep nativeCap ⟨2, 7200⟩ ENGINE ⟨7, false⟩ (.engine (.payFunding 10))) = []
+    ∧ (modelStep nativeCap ⟨2, 7200⟩ ENGINE ⟨7, false⟩ (.engine (.payFunding 10))).xfers
+      = [(ENGINE, ENGINE, 7), (ENGINE, IFUND, 10)] := by decide +kernel
 
 /-- a zero-size record that still carries margin 100 and notional 50 (as `c11_rounded_reduce_ok` leaves behind) -/
 def staleNotional : World :=
